@@ -52,6 +52,10 @@ def shrink(module: str, scenario: dict, signature: str) -> tuple[dict, str, int]
         return scenario, signature, 0
     if r["signature"] is None:
         return scenario, signature, r["evals"]
+    if r["signature"].startswith("finding:") and not signature.startswith("finding:"):
+        # evaluated alone in a fresh process the scenario only shows a listed finding: the violation
+        # needed the worker's earlier history; report what was observed, not the finding
+        return scenario, signature, r["evals"]
     return r["scenario"], r["signature"], r["evals"]
 
 
